@@ -95,3 +95,8 @@ Example C11_join_example :
   Some [(Some 1, 1, [9], Some [([97], VBool true); ([116], VUInt 7); ([120], VStr [121])]);
         (None, 3, [], Some [([97], VBool true)])].
 Proof. reflexivity. Qed.
+
+(* the association lists of the model are what a BTreeMap is: strictly sorted by key after every insert *)
+Theorem C11_properties_stay_sorted : forall ps new, bt_sorted (bt_of ps) = true /\ bt_sorted (bt_update (bt_of ps) new) = true.
+Proof. intros ps new. split; [apply bt_of_sorted | apply bt_update_sorted, bt_of_sorted]. Qed.
+Print Assumptions C11_properties_stay_sorted.
